@@ -495,8 +495,14 @@ def stream : List REv → Bytes
 structure FRet where
   msg : Msg
   usedTcp : Bool
+  /-- `response.time`: from the start of the exchange that produced it to its reception -/
   time : Nat
   deriving DecidableEq, Repr
+
+/-- the result of the TCP leg as the result of `udp_with_fallback` (`used_tcp = True`) -/
+def asFallback (t : Nat) : Bytes × Except Err TRet → Bytes × Except Err FRet
+  | (sent, .ok r) => (sent, .ok ⟨r.msg, true, r.recvTime - t⟩)
+  | (sent, .error e) => (sent, .error e)
 
 /-- `dns.query.udp_with_fallback(q, where, timeout, …, udp_sock=…, tcp_sock=…)`: `udp()` with
 `raise_on_truncation=True`; on `Truncated` (only), `tcp()` with the same query and a fresh deadline.
@@ -505,11 +511,9 @@ def udpWithFallback (q : Msg) (qwire : Bytes) (af : Nat) (dest : Addr) (timeout 
     (sendBlocks : List Nat) (script : List UEv) (body : Bytes → Body) (sevs : List SEv) (revs : List REv) (now : Nat) :
     Bytes × Except Err FRet :=
   match udp false q af dest timeout { o with raiseOnTruncation := true } sendBlocks script now with
-  | .ok r => ([], .ok ⟨r.msg, false, r.recvTime⟩)
+  | .ok r => ([], .ok ⟨r.msg, false, r.recvTime - now⟩)
   | .error ⟨.truncated, _, t⟩ =>
-    match tcp q qwire timeout o.ignoreTrailing body sevs revs t with
-    | (sent, .ok r) => (sent, .ok ⟨r.msg, true, r.recvTime⟩)
-    | (sent, .error e) => (sent, .error e)
+    asFallback t (tcp q qwire timeout o.ignoreTrailing body sevs revs t)
   | .error f => ([], .error f.err)
 
 /-! ## `dns.asyncquery`: the same exchanges over a backend socket that does its own waiting
@@ -527,6 +531,12 @@ def waitB (budget : Option Nat) (now dt : Nat) : Except Err (Option Nat × Nat) 
   | some b => if b ≤ dt then .error .timeout else .ok (some (b - dt), now + dt)
 
 def starvedB (budget : Option Nat) : Err := if budget.isSome then .timeout else .exhausted
+
+/-- the clock when a backend call gives up: it has waited out its budget -/
+def giveUpB (budget : Option Nat) (now : Nat) : Nat :=
+  match budget with
+  | some b => now + b
+  | none => now
 
 /-- `dns.asyncquery._read_exactly(sock, count, expiration)` with the backend's `recv(count, timeout)` inlined:
 `budget` is what is left of the timeout of the `recv` call in progress; every new `recv` call gets
@@ -569,7 +579,7 @@ def sendB : List Nat → Option Nat → Nat → Except (Err × Nat) Nat
   | [], _, now => .ok now
   | dt :: rest, budget, now =>
     match waitB budget now dt with
-    | .error e => .error (e, match budget with | some b => now + b | none => now)
+    | .error e => .error (e, giveUpB budget now)
     | .ok (b', now') => sendB rest b' now'
 
 /-- `dns.asyncquery.send_tcp` -/
@@ -593,10 +603,10 @@ def tcpA (q : Msg) (qwire : Bytes) (timeout : Option Nat) (ignoreTrailing : Bool
 of the timeout of the `recvfrom` call in progress). -/
 def receiveUdpA (coe : Bool) (af : Nat) (dest : Option Addr) (exp : Option Nat) (o : UOpts) (query : Option Msg) :
     List UEv → Option Nat → Nat → Nat → Except Fail URet
-  | [], budget, now, idx => .error ⟨starvedB budget, idx, match budget with | some b => now + b | none => now⟩
+  | [], budget, now, idx => .error ⟨starvedB budget, idx, giveUpB budget now⟩
   | .block dt :: rest, budget, now, idx =>
     match waitB budget now dt with
-    | .error e => .error ⟨e, idx, match budget with | some b => now + b | none => now⟩
+    | .error e => .error ⟨e, idx, giveUpB budget now⟩
     | .ok (b', now') => receiveUdpA coe af dest exp o query rest b' now' idx
   | .dgram src w :: rest, _, now, idx =>
     match judge coe af dest o query src w with
@@ -622,11 +632,9 @@ def udpWithFallbackA (q : Msg) (qwire : Bytes) (af : Nat) (dest : Addr) (timeout
     (sendBlocks : List Nat) (script : List UEv) (body : Bytes → Body) (tcpBlocks : List Nat) (revs : List REv) (now : Nat) :
     Bytes × Except Err FRet :=
   match udpA false q af dest timeout { o with raiseOnTruncation := true } sendBlocks script now with
-  | .ok r => ([], .ok ⟨r.msg, false, r.recvTime⟩)
+  | .ok r => ([], .ok ⟨r.msg, false, r.recvTime - now⟩)
   | .error ⟨.truncated, _, t⟩ =>
-    match tcpA q qwire timeout o.ignoreTrailing body tcpBlocks revs t with
-    | (sent, .ok r) => (sent, .ok ⟨r.msg, true, r.recvTime⟩)
-    | (sent, .error e) => (sent, .error e)
+    asFallback t (tcpA q qwire timeout o.ignoreTrailing body tcpBlocks revs t)
   | .error f => ([], .error f.err)
 
 end Model.Net
